@@ -189,7 +189,7 @@ Proof.
       - split; [exact G3|]. split; [reflexivity|]. split.
         + apply match_upd. destruct MM2 as [F N]. split; [|exact N]. cbn. inversion F as [|sc f0 scs fs FM F' E1 E2]; subst.
           constructor; [|constructor; [exact FM|exact F']].
-          split; [intros k; reflexivity|split; [|reflexivity]]. cbn. destruct FM as (_ & NS & _). unfold cur_ns_of. rewrite <- E1. exact NS.
+          split; [intros k; reflexivity|split; [|split; reflexivity]]. cbn. destruct FM as (_ & NS & _). unfold cur_ns_of. rewrite <- E1. exact NS.
         + split; [cbn; lia|rewrite quirks_upd_cur; exact D2].
       - split; [reflexivity|]. exists [VNil]. split; [reflexivity|]. split; [reflexivity|]. split; [discriminate|nil_case]. }
     pose proof (proj1 (proj2 (proj2 (proj2 vm_runs_z))) (enter s2 []) RNil b out s3 HB) as BE.
